@@ -410,8 +410,10 @@ func (r *runner) exec(e Event) {
 			r.n.Chain.BlockExist(&h)
 		case "pool":
 			r.n.Pool.GetTransactions()
+		case "have":
 			if len(r.wd.txs) > 0 {
 				r.n.Pool.HaveTransaction(&r.wd.txs[0].ID)
+				r.n.Pool.GetTransaction(&r.wd.txs[0].ID)
 			}
 		case "validators":
 			h := r.wd.blocks[e.Block].Hash
